@@ -1,11 +1,18 @@
 ------------------------------- MODULE Sim_Store ------------------------------
-(* Store + a recorded path, for TLC's simulation mode: behaviours of length   *)
-(* PathLen over a larger scope than the exhaustive dump can afford, printed   *)
-(* as REPLAY lines (calls with the results the stores must give).             *)
+(* Store + a recorded path, for TLC's simulation mode: behaviours of PathLen   *)
+(* calls over a larger scope than the exhaustive dump can afford, printed as   *)
+(* REPLAY lines (calls with the results the stores must give).                 *)
+(* The simulator evaluates invariants on every candidate successor, so the     *)
+(* path is printed from the single successor ("end") of the state the          *)
+(* simulator actually chose after PathLen calls: one line per behaviour.       *)
 EXTENDS Store, Json
 CONSTANT PathLen
 VARIABLE path
 SimInit == Init /\ path = <<>>
-SimNext == Next /\ path' = Append(path, lastAct')
-PathDump == (Len(path) = PathLen) => PrintT(<<"REPLAY", ToJson(path)>>)
+SimNext == IF Len(path) < PathLen
+           THEN Next /\ path' = Append(path, lastAct')
+           ELSE /\ Len(path) = PathLen
+                /\ UNCHANGED vars
+                /\ path' = Append(path, [k |-> "end"])
+PathDump == (Len(path) = PathLen + 1) => PrintT(<<"REPLAY", ToJson(SubSeq(path, 1, PathLen))>>)
 =============================================================================
